@@ -54,6 +54,15 @@ pub struct Scenario {
     pub ops: Vec<Op>,
     /// Check every proof after each step (small trees) or a sample.
     pub dense_checks: bool,
+    /// Bit `step % 64` set: observe root / count / proofs after that step. Observation is not
+    /// neutral (an implementation may cache what it was asked for), so half of the runs observe
+    /// only at seeded steps; the last step is always observed.
+    #[serde(default = "all_steps")]
+    pub check_mask: u64,
+}
+
+fn all_steps() -> u64 {
+    u64::MAX
 }
 
 fn leaf_data(tag: u32, len: u16) -> Vec<u8> {
@@ -304,7 +313,7 @@ impl Engine for Bmt {
         }
         let lens = [0u16, 1, 32, 100, 7, 64];
         for _ in 0..nops {
-            let w = [12, w_reset, w_load, w_commit, w_prove, 1, w_fault, 1];
+            let w = [12, w_reset, w_load, w_commit, w_prove, 3, w_fault, 1];
             match g.weighted(&w) {
                 0 => {
                     if g.chance(1, 6) {
@@ -343,7 +352,8 @@ impl Engine for Bmt {
                 _ => ops.push(Op::LoadBeyond { extra: g.range(1, 9) as u32 }),
             }
         }
-        Scenario { ops, dense_checks: !big }
+        let check_mask = if g.bool() { u64::MAX } else { g.next_u64() & g.next_u64() };
+        Scenario { ops, dense_checks: !big, check_mask }
     }
 
     fn run(_prop: &str, sc: &Scenario, ctx: &mut RunCtx) {
@@ -408,7 +418,18 @@ impl Engine for Bmt {
                         do_push!(leaf_data(tag.wrapping_mul(7919).wrapping_add(j), 8));
                     }
                 }
-                Op::Root => {}
+                Op::Root => {
+                    // an explicit observation of the root (and nothing else)
+                    let got = sys.tree.root();
+                    if got != rfc::mth_hashed(&m.hashes) {
+                        ctx.violate("bmt-root", "bmt-root:storage-tree", format!("step {step}: root() differs from RFC 6962 MTH over {} model leaves", m.leaves.len()));
+                        return;
+                    }
+                    if sys.mem_in_sync && sys.mem.root() != got {
+                        ctx.violate("bmt-root", "bmt-root:in-memory-tree", format!("step {step}: in-memory root() differs from the storage-backed tree's"));
+                        return;
+                    }
+                }
                 Op::Prove { index } => {
                     let n = m.leaves.len() as u64;
                     let r = sys.tree.prove(*index);
@@ -613,7 +634,8 @@ impl Engine for Bmt {
                     }
                 }
             }
-            if check_all(&sys, &m, sc.dense_checks, step, ctx) {
+            let observe = (sc.check_mask >> (step % 64)) & 1 == 1 || step + 1 == sc.ops.len();
+            if observe && check_all(&sys, &m, sc.dense_checks, step, ctx) {
                 return;
             }
             if step % 8 == 7 && m.leaves.len() <= 256 && check_fresh(&m, step, ctx) {
@@ -631,13 +653,13 @@ impl Engine for Bmt {
         let n = sc.ops.len();
         // drop halves, then single ops
         if n > 1 {
-            out.push(Scenario { ops: sc.ops[..n / 2].to_vec(), dense_checks: sc.dense_checks });
-            out.push(Scenario { ops: sc.ops[n / 2..].to_vec(), dense_checks: sc.dense_checks });
+            out.push(Scenario { ops: sc.ops[..n / 2].to_vec(), dense_checks: sc.dense_checks, check_mask: sc.check_mask });
+            out.push(Scenario { ops: sc.ops[n / 2..].to_vec(), dense_checks: sc.dense_checks, check_mask: sc.check_mask });
         }
         for i in (0..n).rev() {
             let mut ops = sc.ops.clone();
             ops.remove(i);
-            out.push(Scenario { ops, dense_checks: sc.dense_checks });
+            out.push(Scenario { ops, dense_checks: sc.dense_checks, check_mask: sc.check_mask });
         }
         // simplify ops
         for i in 0..n {
@@ -656,7 +678,7 @@ impl Engine for Bmt {
             if let Some(s) = simpler {
                 let mut ops = sc.ops.clone();
                 ops[i] = s;
-                out.push(Scenario { ops, dense_checks: sc.dense_checks });
+                out.push(Scenario { ops, dense_checks: sc.dense_checks, check_mask: sc.check_mask });
             }
         }
         out
